@@ -25,3 +25,19 @@ package redirect
 //@   loop 0:
 //@     invariant 0 <= it0 && it0 <= len(r.Question) && (old(qCtx.resp) == nil ==> q.Question[0].Name == redirectTarget)
 //@     invariant forall k int :: 0 <= k && k < len(r.Question) ==> r.Question[k].Name == ite(k < it0 && aftercall(ExecNext, 0, r.Question[k].Name) == redirectTarget, orgQName, aftercall(ExecNext, 0, r.Question[k].Name))
+
+// NewRedirect (C12): a redirect rule without prefix is a 'full:' rule (the documented default of
+// the redirect plugin). The default is set once, on the new set, before any rule is loaded; every
+// rule and every file is loaded into that set.
+//@ func NewRedirect [C12]
+//@   requires args != nil
+//@   modifies *
+//@   ensures calls(NewMixMatcher) == 1 && calls(setDefaultMatcher) == 1 && arg(setDefaultMatcher, 0, 0) == ret(NewMixMatcher, 0) && arg(setDefaultMatcher, 0, 1) == "full"
+//@   ensures (result_0 != nil) != (result_1 != nil)
+//@   ensures result_1 == nil ==> result_0.m == ret(NewMixMatcher, 0)
+//@   loop 0:
+//@     invariant m != nil && m == ret(NewMixMatcher, 0) && calls(setDefaultMatcher) == 1 && calls(NewMixMatcher) == 1 && 0 <= it0
+//@     each iter_calls(loadRule) == 1 && iter_arg(loadRule, 0, 0).val == m && iter_arg(loadRule, 0, 1) == rule && iter_ret(loadRule, 0) == nil
+//@   loop 1:
+//@     invariant m != nil && m == ret(NewMixMatcher, 0) && calls(setDefaultMatcher) == 1 && calls(NewMixMatcher) == 1 && 0 <= it1
+//@     each iter_calls(loadFromTextReader) == 1 && iter_arg(loadFromTextReader, 0, 0).val == m && iter_ret(loadFromTextReader, 0) == nil
